@@ -12,7 +12,7 @@
    Ghost log: EvClaim n i c  = SetNX on the index of n succeeded for mapping i of client c;
               EvRelease n i c = the index entry of n was deleted on behalf of mapping i by client c;
               EvWrite i c t   = the record of mapping i was written by client c with target t.          (newest first) *)
-From TX Require Import Model.Domain Proofs.Domain Proofs.DomainRefuted Proofs.SideC19 Gen.C19.
+From TX Require Import Model.Domain Model.DomainRegistry Proofs.Domain Proofs.DomainRefuted Proofs.DomainRegistry Proofs.SideC19 Gen.C19.
 Local Open Scope N_scope.
 
 (* (1) single owner.  In every reachable state the index is exactly "the last unreleased claim" of each name; every
@@ -208,6 +208,28 @@ Theorem C19_host_resolves_only_to_its_own_name :
 Proof. exact extract_only_own_spellings. Qed.
 Print Assumptions C19_host_resolves_only_to_its_own_name.
 
+(* (7) the legacy in-memory host index (DomainRegistry, second stage of the lookup and the management API's claim).  One step =
+   one critical section of its mutex.  For ANY number of concurrent Register calls, ANY registry contents beforehand and
+   ANY schedule: claimants of one name that were all told they own it are one and the same mapping (a Register by the
+   mapping already holding the name is an update), and every Host spelling resolving to the name routes to that winner.
+   A name held by another mapping is refused.  What makes it true: existence check and insert in ONE write-locked section. *)
+Theorem C19_registry_claim_exclusive :
+  forall (m0 : regmap) (cs : list claimant) (sched : list nat),
+  idle_claimants cs ->
+  let s := rrun true m0 cs sched in
+  (forall a b, In a (snd s) -> In b (snd s) -> c_pc a = RDone true -> c_pc b = RDone true ->
+               c_name a = c_name b -> c_map a = c_map b) /\
+  (forall a host, In a (snd s) -> c_pc a = RDone true -> extractDomain host = c_name a ->
+               reg_lookup (fst s) host = Some (c_map a)).
+Proof. exact registry_claim_exclusive. Qed.
+Print Assumptions C19_registry_claim_exclusive.
+
+Theorem C19_registry_registered_name_refused :
+  forall m c, c_pc c = RIdle -> (exists j, m (c_name c) = Some j /\ j <> c_map c) ->
+  rstep true c m = (set_pc c (RDone false), m).
+Proof. exact registered_name_refused. Qed.
+Print Assumptions C19_registry_registered_name_refused.
+
 (* ---- refuted variants (the findings) ------------------------------------------------------------------------ *)
 
 (* pinned DeleteMapping (unconditional index delete): a repeated delete of mapping 1 racing a re-claim removes the
@@ -274,6 +296,22 @@ Theorem C19_index_before_record_run :
   idx (fst s) host_a = Some 2 /\ recs (fst s) 1 = None.
 Proof. exact index_before_record_run. Qed.
 Print Assumptions C19_index_before_record_run.
+
+(* DomainRegistry.Register with the existence check in a read-locked section of its own and the insert in a later write-locked
+   section without re-check: two claimants of one new name both pass the check before either inserts — both are told they
+   own the name, the last writer routes. *)
+Theorem C19_registry_two_section_register_refuted :
+  let s := rrun false (fun _ => None) two_claimants [0; 1; 0; 1]%nat in
+  map c_pc (snd s) = [RDone true; RDone true] /\ reg_lookup (fst s) [115; 58; 52; 52; 51] = Some 2.
+Proof. exact two_section_register_refuted. Qed.
+Print Assumptions C19_registry_two_section_register_refuted.
+
+Theorem C19_registry_one_section_run :
+  idle_claimants two_claimants /\
+  let s := rrun true (fun _ => None) two_claimants [0; 1; 0; 1]%nat in
+  map c_pc (snd s) = [RDone true; RDone false] /\ reg_lookup (fst s) [115; 58; 52; 52; 51] = Some 1.
+Proof. exact (conj two_claimants_idle one_section_register_run). Qed.
+Print Assumptions C19_registry_one_section_run.
 
 (* ---- non-vacuity ------------------------------------------------------------------------------------------------ *)
 
